@@ -12,6 +12,7 @@ import (
 	"github.com/akrylysov/pogreb"
 	"github.com/akrylysov/pogreb/fs"
 	"github.com/akrylysov/pogreb/zzverif/explore"
+	"github.com/akrylysov/pogreb/zzverif/simfs"
 )
 
 // C14: returned byte slices belong to the caller; the database keeps no reference to slices passed in.
@@ -62,6 +63,57 @@ func c14Run(fsys fs.FileSystem, dir string, cfg explore.Config, base *explore.Ba
 	put := map[string]map[string]bool{} // key -> values ever put (for the late-drained iterator)
 	for k, v := range base.Model {
 		put[k] = map[string]bool{v: true}
+	}
+	// a key with an EMPTY value followed by another record (so that file bytes follow the empty value)
+	emptyKey, afterKey := []byte("c14-empty-value"), []byte("c14-after")
+	if err := db.Put(emptyKey, []byte{}); err != nil {
+		return "Put(empty value): " + err.Error()
+	}
+	if err := db.Put(afterKey, []byte("after-value")); err != nil {
+		return "Put: " + err.Error()
+	}
+	put[string(emptyKey)] = map[string]bool{"": true}
+	put[string(afterKey)] = map[string]bool{"after-value": true}
+	// scribble probes: what a read returns is the caller's - contents AND spare capacity. The caller
+	// overwrites both; neither the file system's memory nor any stored record may change.
+	stage = "scribble probes"
+	scribble := func(b []byte) {
+		for i := range b {
+			b[i] ^= 0xFF
+		}
+		if spare := b[len(b):cap(b)]; len(spare) > 0 {
+			for i := range spare {
+				spare[i] = 0x33
+			}
+		}
+	}
+	for _, k := range [][]byte{base.Keys[same], emptyKey, base.Keys[other]} {
+		v, _ := db.Get(k)
+		scribble(v)
+		v, _ = db.GetAppend(k, nil)
+		scribble(v)
+		v, _ = db.GetAppend(k, make([]byte, 0, 1))
+		scribble(v)
+	}
+	sit := db.Items()
+	for i := 0; i < 3; i++ {
+		k, v, err := sit.Next()
+		if err != nil {
+			break
+		}
+		scribble(k)
+		scribble(v)
+	}
+	if sim, ok := fsys.(*simfs.FS); ok {
+		if m := sim.SlicesIntact(); m != "" {
+			return "after the caller overwrote slices returned by Get/GetAppend/Next (contents and spare capacity): " + m
+		}
+	}
+	for k, vs := range put {
+		v, err := db.Get([]byte(k))
+		if err != nil || v == nil || !vs[string(v)] {
+			return fmt.Sprintf("after the caller overwrote slices returned by Get/GetAppend/Next (contents and spare capacity), Get(%x) returns %q, err=%v: a stored record was damaged through a returned slice", k, trunc(v), err)
+		}
 	}
 	var held []heldSlice
 	hold := func(what string, b []byte) {
@@ -248,7 +300,7 @@ func runC14(c *explore.Ctx) {
 		if err != nil {
 			c.HarnessError("%v", err)
 		}
-		for _, kind := range []string{"sim-poison", "osmmap", "os"} {
+		for _, kind := range []string{"sim-poison", "osmmap", "os", "mem"} {
 			depth := s.depth
 			if kind != "sim-poison" {
 				depth = s.realDepth
@@ -277,19 +329,30 @@ func runC14(c *explore.Ctx) {
 						img := base.Image.Clone()
 						img.Poison = true
 						fsys = img
-					case "osmmap", "os":
+					case "osmmap", "os", "mem":
 						dir = filepath.Join(scratch, fmt.Sprintf("d%d", n))
 						fsys = fs.OSMMap
 						if kind == "os" {
 							fsys = fs.OS
+						}
+						if kind == "mem" {
+							fsys = fs.Mem
+							dir = fmt.Sprintf("c14-%d-%d", os.Getpid(), n)
 						}
 						if err := copyImage(base.Image, fsys, dir); err != nil {
 							c.HarnessError("copying base image: %v", err)
 						}
 					}
 					msg := c14Run(fsys, dir, base.Cfg, base, s.same, s.other, s.newKey, word)
-					if kind != "sim-poison" {
+					if kind == "osmmap" || kind == "os" {
 						_ = os.RemoveAll(dir)
+					}
+					if kind == "mem" {
+						if ents, err := fs.Mem.ReadDir(dir); err == nil {
+							for _, e := range ents {
+								_ = fs.Mem.Remove(filepath.Join(dir, e.Name()))
+							}
+						}
 					}
 					c.Add("executions", 1)
 					c.Add("transitions", int64(depth))
